@@ -12,7 +12,7 @@ import json, os, re, subprocess, sys, random, tempfile, shutil, argparse
 from concurrent.futures import ThreadPoolExecutor
 ap=argparse.ArgumentParser(); ap.add_argument('-n',type=int,default=200); ap.add_argument('-per',type=int,default=4)
 ap.add_argument('-j',type=int,default=3); ap.add_argument('-only',default=''); ap.add_argument('-seed',type=int,default=1)
-ap.add_argument('-notests',action='store_true')
+ap.add_argument('-notests',action='store_true'); ap.add_argument('-replay',default='',help='previous log: re-run only the mutants it lists as not killed')
 a=ap.parse_args()
 ENV=dict(os.environ,GOFLAGS='-mod=mod',GOPROXY='off',GOSUMDB='off',GOTOOLCHAIN='local')
 DIRS={'scheduler':'pkg/scheduler','runner':'pkg/runner','executor':'pkg/executor','variables':'pkg/variables','output':'pkg/output','utils':'pkg/utils','config':'internal/config','watch':'internal/watch','main':'cmd/taskctl','task':'pkg/task'}
@@ -38,6 +38,14 @@ def locate(fn):
     return None
 random.seed(a.seed)
 work=tempfile.mkdtemp(prefix='govc-mutants-',dir='/tmp')
+MUT=work+'/mutate'
+subprocess.run(['go','build','-o',MUT,'.'],cwd='/verif/tools/mutate',env=ENV,check=True)
+replay=None
+if a.replay:
+    replay=set()
+    for l in open(a.replay):
+        f=[x.strip() for x in l.split(' | ')]
+        if len(f)>=5 and not f[4].startswith('killed') and f[4]!='does-not-compile': replay.add(' | '.join(f[:4]))
 jobs=[]
 for fn in sorted(fnprops):
     if a.only and not re.search(a.only,fn): continue
@@ -45,11 +53,17 @@ for fn in sorted(fnprops):
     if not loc: continue
     path,short=loc
     out=f'{work}/gen/{fn.replace("/","_")}'
-    n=int(subprocess.run(['/tmp/mutate','-file','/repo/'+path,'-funcs',short,'-out',out],capture_output=True,text=True).stdout.strip() or 0)
+    n=int(subprocess.run([MUT,'-file','/repo/'+path,'-funcs',short,'-out',out],capture_output=True,text=True).stdout.strip() or 0)
     ids=list(range(n)); random.shuffle(ids)
+    if replay is not None:
+        for i in range(n):
+            d=open(f'{out}/{i}.txt').read().strip()
+            if d in replay: jobs.append((fn,path,f'{out}/{i}.go',d))
+        continue
     for i in sorted(ids[:a.per]):
         jobs.append((fn,path,f'{out}/{i}.go',open(f'{out}/{i}.txt').read().strip()))
-random.shuffle(jobs); jobs=jobs[:a.n]
+if replay is None:
+    random.shuffle(jobs); jobs=jobs[:a.n]
 def run(job):
     fn,path,mfile,desc=job
     sc=tempfile.mkdtemp(prefix='govc-mut-',dir='/tmp'); ev=tempfile.mkdtemp(prefix='govc-mut-ev-',dir='/tmp')
